@@ -186,6 +186,8 @@ type Network struct {
 	conns     map[peer.ID]*Conn
 	notifiees []network.Notifiee
 	connSeq   int
+	// ConnsDelay (ns): virtual time Conns() takes before it answers (0: instantaneous)
+	ConnsDelay atomic.Int64
 }
 
 var _ network.Network = (*Network)(nil)
@@ -260,6 +262,9 @@ func (n *Network) Unlist(p peer.ID) {
 }
 
 func (n *Network) Conns() []network.Conn {
+	if d := time.Duration(n.ConnsDelay.Load()); d > 0 {
+		time.Sleep(d) // a busy host: enumerating the connections takes time
+	}
 	n.mu.Lock()
 	defer n.mu.Unlock()
 	var out []network.Conn
